@@ -224,6 +224,7 @@ class C17(Check):
             nrad = k.choice([130, 600, 1500, 2300])  # scale runs: a registry with hundreds / thousands of radios (and, below, a history long enough to fill it)
         radios = [k.randrange(1, 1 << 24) for _ in range(nrad)]
         knobs = {
+            "twin_lag": k.choice([1, 3, 7]) if k.random() < 0.12 else 0,
             "handler": "RRS" if k.random() < 0.85 else "HSTRP",
             "initial_sn": k.choice([0, 0, k.randrange(65536), 0xFFFD, 0xFFFE, 0xFFFC]),
             "radios": radios,
@@ -376,6 +377,8 @@ class C17(Check):
             yield {kk: v for kk, v in case.items() if kk != "cotenant"}
         if k.get("initial_sn"):
             yield dict(case, knobs=dict(k, initial_sn=0))
+        if k.get("twin_lag"):
+            yield dict(case, knobs=dict(k, twin_lag=0))
         if k.get("maint") not in (None, "none"):
             yield dict(case, knobs=dict(k, maint="none"))
         if case.get("fates"):
@@ -422,6 +425,8 @@ class _Run:
         self.wd = Watchdog(5.0)
         self.last3 = {}
         self.stopped = False
+        self.twin = None
+        self.twin_q = []
 
     # --- set-up
     def _mk_handler(self, name):
@@ -434,6 +439,9 @@ class _Run:
         h.connection_made(SimDatagramTransport(name, self._on_send))
         self.handlers[name] = h
         self.model[name] = {"connected": False, "registry": {}, "sn": h.sn}
+        if self.knobs.get("twin_lag") and self.twin is None:
+            self.twin = cls(port=3003, be_active_peer=False)
+            self.twin.connection_made(SimDatagramTransport(name + "'", lambda *a: None))
 
     def run(self):
         import okdmr.dmrlib.protocols.hytera.hstrp_datagram_protocol as mod
@@ -635,6 +643,17 @@ class _Run:
         self.cur_hops = hops
         self.log.add(self.loop.time(), dst, "deliver", (data.hex(), list(src)))
         res["evals"] += 1
+        if self.twin is not None:
+            # a second handler object of the same class in this process (another port of the same gateway; its output goes nowhere) hears
+            # the same datagrams a few deliveries late, so its connection state, counters and registry differ from this one's most of the time
+            self.twin_q.append((data, src))
+            if len(self.twin_q) > self.knobs["twin_lag"]:
+                td, ts = self.twin_q.pop(0)
+                try:
+                    self.twin.datagram_received(td, ts)
+                except Exception:
+                    pass
+                res.fault("twin_handler_delivery")
         try:
             with self.wd:
                 h.datagram_received(data, src)
